@@ -26,11 +26,15 @@ def bounds(tier):
         return {"dense": "values 0..5, 1..7 items, 1..6 bins (cg: all 48 configs; dp/ckk within cost bounds)",
                 "wide": "values 1..10, exactly 7 items, k=4..5 for ckk/snp/rnp/cg(default switches)",
                 "nine": "values 1..5, exactly 9 items, k=4..5 for rnp/snp (smallest scope on which rnp's even-case defect showed)",
-                "ilp": "values 0..4, 1..5 items, 1..4 bins, 3 objectives + k-sums objectives"}
+                "ilp": "values 0..4, 1..5 items, 1..4 bins, 3 objectives + k-sums objectives",
+                "long-thin": "9..15 items over {1,2}, 9..12 over {1,2,3}, 9..11 over {0,1,5} and {2,3,7}; k in {2,3,4,5,7}; cg x 3 objectives x {default, fast bound off}; ckk/rnp (n<=12, k<=4), snp (n<=12, k<=3); optimum from the sum-vector DP",
+                "big": "values {0, 1, 2**24+1, 2**31+1, 2**32+3, 2**40+5}, 2..5 items, k=2..4: ckk/snp/rnp/dp (all objectives); cg 48 configurations k=2..3"}
     return {"dense": "values 0..7, 1..8 items, 1..6 bins",
             "wide": "values 1..10 (7 items), fibonacci/near-equal/powers-of-two alphabets (6..8 items), k=2..5",
             "nine": "values 1..5, 9..10 items, k=4..5 for rnp/snp",
-            "ilp": "values 0..5, 1..6 items, 1..4 bins + spread alphabet {7,19,53,101,199} 1..4 items"}
+            "ilp": "values 0..5, 1..6 items, 1..4 bins + spread alphabet {7,19,53,101,199} 1..4 items",
+            "long-thin": "9..24 items over {1,2}, 9..16 over {1,2,3}, 9..13 over {0,1,5} and {2,3,7}; k in {2,3,4,5,7}; cg x 3 objectives x {default, fast bound off}; ckk/rnp (n<=12, k<=4), snp (n<=12, k<=3); ilp at n in {9,12}, k<=3; optimum from the sum-vector DP",
+            "big": "values {0, 1, 2**24+1, 2**31+1, 2**32+3, 2**40+5}, 2..6 items, k=2..4: ckk/snp/rnp/dp (all objectives); cg 48 configurations k=2..3"}
 
 
 def tasks(tier):
@@ -53,6 +57,12 @@ def tasks(tier):
     for n in ((9,) if q else (9, 10)):
         for ch in scopes.chunk_multisets(range(1, 6), n, n, 40):
             ts.append(("nine-rnp", ch, (4, 5), tier))
+    # many items over tiny alphabets (optimum from the sum-vector DP) and magnitudes beyond 2**24 / 2**31 / 2**32
+    for ch in spaces.chunked(scopes.long_thin_multisets(tier), 12):
+        ts.append(("long-thin", ch, None, tier))
+    for ch in scopes.chunk_multisets(scopes.BIG_VALUES, 2, 5 if q else 6, 30):
+        ts.append(("big-exact", ch, (2, 3, 4), tier))
+        ts.append(("big-cg", ch, (2, 3), tier))
     Vi, Ni, Ki = (4, 5, 4) if q else (5, 6, 4)
     for ch in scopes.chunk_multisets(range(0, Vi + 1), 1, Ni, 6 if q else 8):
         ts.append(("ilp", ch, tuple(range(1, Ki + 1)), tier))
@@ -62,7 +72,7 @@ def tasks(tier):
     return ts
 
 
-def _judge(acc, case, spec):
+def _judge(acc, case, spec, dp=False):
     algo = case["algo"]
     obs = repo.call(case)
     acc.ran(algo)
@@ -74,7 +84,7 @@ def _judge(acc, case, spec):
         acc.violation(algo, cfg_str(case), inp_str(case), "not_a_partition", f"{case['k']} sums totalling {sum(case['items'])}", sums, case)
         return
     got = O.objective_value(spec, sums)
-    want = O.optimum_value(spec, tuple(case["items"]), case["k"])
+    want = O.optimum_value(spec, tuple(case["items"]), case["k"], dp=dp or bool(case.get("dp_oracle")))
     acc.check()
     acc.outcome((algo, spec, got - want))
     if got != want:
@@ -87,10 +97,37 @@ def _judge(acc, case, spec):
         acc.violation(algo, cfg_str(case), inp_str(case), "suboptimal", f"{spec} optimum {want}", f"value {got}, sums {sums}", case)
 
 
+def _long_thin(acc, chunk, tier):
+    """9..24 items over 2-3 letters: complete greedy (default switches and fast bound off) for its three objectives at
+    k in {2,3,4,5,7}; ckk / snp / rnp where a run stays in the millisecond range (n <= 12; snp k <= 3); ilp on a thin slice"""
+    for ms in chunk:
+        n = len(ms)
+        items = list(scopes.scramble(ms))
+        for k in (2, 3, 4, 5, 7):
+            opt = O.opt_partition_dp(tuple(sorted(ms, reverse=True)), k)
+            lpt = O.lpt_sums(ms, k)
+            acc.point(nontrivial=(max(lpt) - min(lpt) != opt["diff"]))
+            for spec in scopes.CG_OBJECTIVES:
+                for sw in ({}, {"use_fast_lower_bound": False}):
+                    _judge(acc, {"algo": "cg", "items": items, "k": k, "out": "Sums", "kw": dict(sw, objective=spec), "dp_oracle": True}, spec)
+            if n <= 12 and k <= 4:
+                for a in ("ckk", "rnp") + (("snp",) if k <= 3 else ()):
+                    _judge(acc, {"algo": a, "items": items, "k": k, "out": "Sums", "kw": {}, "dp_oracle": True}, "MinimizeDifference")
+            if tier != "quick" and n in (9, 12) and k <= 3 and max(ms) <= 3:
+                for spec in scopes.CG_OBJECTIVES:
+                    _judge(acc, {"algo": "ilp", "items": items, "k": k, "out": "Sums", "kw": {"objective": spec}, "dp_oracle": True}, spec)
+        if ms == chunk[0]:
+            acc.sample({"items": items, "numbins": [2, 3, 4, 5, 7], "scope": "long-thin"})
+    O.opt_partition_dp.cache_clear()
+    return acc
+
+
 def run_task(task):
     scope, chunk, ks, tier = task
     acc = Acc(ID, scope)
     kind = scope.split("-")[-1] if "-" in scope else scope
+    if scope == "long-thin":
+        return _long_thin(acc, chunk, tier)
     for ms in chunk:
         n = len(ms)
         for k in ks:
